@@ -58,6 +58,14 @@ def build(node, leaves, path, log):
         return s
     if kind == "queue":
         q = queue_mod.Queue()
+        if len(node) > 2 and node[2] == "dotted":
+            # a subclass overriding the public route_code() hook ("adjust route_code on the way through"): dots
+            class Dotted(testtools.StreamToQueue):
+                def route_code(self, route_code):
+                    return self.routing_code if route_code is None else self.routing_code + "." + route_code
+            s = Dotted(q, node[1])
+            leaves.append(("queue", list(path) + [("queue", node[1], ".")], (s, q)))
+            return s
         s = testtools.StreamToQueue(q, node[1])
         leaves.append(("queue", list(path) + [("queue", node[1])], (s, q)))
         return s
@@ -130,7 +138,8 @@ def apply_path(path, fields):
             if f["timestamp"] is None:
                 f["timestamp"] = "NOW"
         elif step[0] == "queue":
-            f["route_code"] = step[1] if f["route_code"] is None else step[1] + "/" + f["route_code"]
+            sep = step[2] if len(step) > 2 else "/"
+            f["route_code"] = step[1] if f["route_code"] is None else step[1] + sep + f["route_code"]
     return f
 
 
@@ -316,6 +325,8 @@ def small_trees():
         d2.extend(unary_wrappers(leaf))
     d2.append(["copy", [["sink"], ["sink"]]])
     d2.append(["copy", [["sink", "empty"], ["sink"]]])
+    d2.append(["copy", [["queue", "7", "dotted"], ["sink"]]])
+    d2.append(["tagger", ["a"], [], [["queue", "7", "dotted"]]])
     d2.append(["tagger", ["a"], [], [["sink", "empty"]]])
     d2.append(["stamp", ["sink", "empty"]])
     d2.append(["copy", [["sink"], ["queue", "1"], ["failfast"]]])
@@ -346,7 +357,8 @@ STD_HISTORY = [
 
 def random_tree(rng, depth):
     if depth == 0 or rng.random() < 0.25:
-        return list(rng.choice(LEAVES + [["sink"], ["sink"], ["sink", "empty"], ["queue", rng.choice(["0", "1", "0/2"])]]))
+        return list(rng.choice(LEAVES + [["sink"], ["sink"], ["sink", "empty"], ["queue", rng.choice(["0", "1", "0/2"])],
+                                         ["queue", "7", "dotted"]]))
     r = rng.random()
     kids = lambda: [random_tree(rng, depth - 1) for _ in range(rng.randint(1, 3))]  # noqa: E731
     if r < 0.35:
